@@ -332,7 +332,7 @@ def run(ck, F):
         found = [n for n in walk(f.get('body')) if n.get('k') in ('ctor', 'decl') and 'Constant_visitor<ipr::xpr::Location_printer>' in str(n.get('cls') or n.get('vars') or '')]
         if found:
             sites.append(fid)
-            guarded = guarded_by_flag(f['body'], 'print_locations')
+            guarded = guarded_by_flag(f['body'], 'print_locations') or flag_on_every_path(F, f, 'print_locations')
             ck.check(R6, 'guard in ' + contracts.short(contracts.fn_qname(fid)), guarded,
                      f'{fid} creates the location printer outside an `if (print_locations)` test', loc=f['loc'], fn=fid)
     ck.check(R6, 'construction sites', len(sites) == 1, f'the location printer is created in {sites}', loc='src/io.cxx')
@@ -380,6 +380,33 @@ def storage_root(F, t):
         else:
             break
     return t
+
+
+def flag_on_every_path(F, f, flag):
+    """The same question asked of the evaluated paths (whichever way the test is written: if-form, early return, a local copy of
+    the switch): on every path that creates a location visitor the switch was read and found set."""
+    S = Sym(F, opaque=ppgraph.printer_opaque(F), max_depth=32)
+    try:
+        outs = S.run(f['id'], args=[ppgraph.PRINTER] + [('param', i) for i in range(1, len(f['params']))])
+    except Unsupported:
+        return False
+
+    def reads_flag_set(c, b):
+        # the condition, with negations folded into the outcome
+        while isinstance(c, tuple) and c[:2] in (('un', '!'), ('op', '!')) and len(c) == 3:
+            c, b = c[2], not b
+        if isinstance(c, tuple) and c[:1] == ('op',) and len(c) == 4 and c[1] in ('==', '!=') and any(x[:1] == ('k',) for x in c[2:] if isinstance(x, tuple)):
+            k = next(x for x in c[2:] if isinstance(x, tuple) and x[:1] == ('k',))
+            other = c[3] if c[2] is k else c[2]
+            return reads_flag_set(other, (bool(k[1]) == b) if c[1] == '==' else (bool(k[1]) != b))
+        return isinstance(c, tuple) and c[:1] == ('fld',) and c[2] == flag and bool(b)
+    made = 0
+    for st, k, v in outs:
+        if any('Location_printer' in o.cls for o in st.heap.values()):
+            made += 1
+            if not any(reads_flag_set(c, b) for c, b in st.conds):
+                return False
+    return made > 0
 
 
 def guarded_by_flag(body, flag):
